@@ -299,6 +299,45 @@ def element_paren_variants(tokens):
             yield tokens[:a] + ["("] + el + [")"] + tokens[b:]
 
 
+def operand_paren_variants(tokens):
+    """wrap the whole operand of `error`, `return` or of a definition /
+    assignment `=` in redundant parentheses: error 'E' + c -> error ('E' + c)
+    (the operand extends to the next top-level statement end)"""
+    enders = (";", "end", "catch", "finally", "then", "else", "elif", "do",
+              ")", "]", ">>", ">>>", "*>", ",")
+    n = len(tokens)
+    for k, t in enumerate(tokens):
+        if t in ("error", "return"):
+            start = k + 1
+        elif t == "=" and k >= 2 and (
+                tokens[k - 2] == "def" or tokens[k - 1] == "]"
+                or (k >= 2 and tokens[k - 2] in (";", "do", "then", "else")
+                    ) or k == 1):
+            start = k + 1
+        else:
+            continue
+        if start >= n or tokens[start] in enders:
+            continue
+        stack, j = [], start
+        while j < n:
+            x = tokens[j]
+            if x in CLOSE:
+                stack.append(CLOSE[x])
+            elif x == "do":
+                stack.append("end")
+            elif stack and x == stack[-1]:
+                stack.pop()
+            elif not stack and x in enders:
+                break
+            j += 1
+        if stack or j == start:
+            continue
+        el = tokens[start:j]
+        if "if" in el and "else" not in el:
+            continue          # a dangling if would capture what follows
+        yield tokens[:start] + ["("] + el + [")"] + tokens[j:]
+
+
 def signed_paren_variants(tokens):
     """wrap a signed numeric literal (unary minus + literal) as a whole in
     redundant parentheses: `-1.5 in x` -> `(-1.5) in x`"""
